@@ -14,6 +14,14 @@ from .sym import (Z, C, LList, LTuple, LDict, LSet, SObj, BoundMethod, Closure, 
                   Unsupported)
 
 
+def _concretize(ip, a):
+    """A concrete bound classmethod / function value as the real Python object (so that inspect etc. can be run)."""
+    if isinstance(a, BoundMethod) and isinstance(a.self_val, C):
+        import types as _t
+        return C(_t.MethodType(a.func, a.self_val.v))
+    return a
+
+
 def _all_concrete(args, kwargs):
     return all(isinstance(a, C) for a in args) and all(isinstance(a, C) for a in kwargs.values())
 
@@ -22,6 +30,7 @@ def call_builtin(ip, f, args, kwargs):
     from .interp import PyRaise, ExcVal, StarArgs, ConcreteIter
     name = getattr(f, "__name__", None) or repr(f)
     mod = getattr(f, "__module__", None)
+    args = [_concretize(ip, a) for a in args]
     if f is _b.zip and len(args) == 1 and isinstance(args[0], StarArgs):
         return _zip_star(ip, args[0].v)
     if any(isinstance(a, StarArgs) for a in args):
